@@ -1,12 +1,12 @@
 SPECIFICATION Spec
 CONSTANTS
-  Keys = {"a", "b"}
+  Keys = {"a", "ba"}
   Scalars <- cScalars1
   Conts <- cConts
   MaxList = 2
   MaxNodes = 7
   PairNodes = 0
-  SearchKeys = {"a", "b", "*", "z"}
+  SearchKeys = {"a", "ba", "*", "z"}
   CondKeys = {"a"}
   MaxConds = 0
   PathNames = {"a", "*"}
